@@ -245,7 +245,10 @@ def trace_validation(ctx, traces, metas, tinfo):
     # binding demonstration: corrupted copies of a multi-worker trace must be rejected
     donor = next((i for i, t in enumerate(traces) if sum(bool(e["ev"] == "put" and e.get("recs")) for e in t) >= 2
                   and t[-1]["outcome"] == "success" and metas[i]["cfg"]["Kill"] == "none"), None)
-    ctx.require(donor is not None, "no multi-worker trace with two non-empty puts recorded")
+    if donor is None:
+        # no successful multi-worker creation at all: that is a finding of the oracle above, not a machinery problem
+        ctx.require(bool(ctx._violations), "no multi-worker trace with two non-empty puts recorded")
+        return
     bad1 = [dict(e) for e in traces[donor]]
     for e in bad1:                      # a record silently dropped from a part
         if e["ev"] == "put" and e.get("recs"):
